@@ -112,10 +112,18 @@ func subTxJSON(t *types.Transaction) []byte {
 	return b
 }
 
+// signSource remembers the 65 bytes a generated *common.Sign was built from, so that the token fed to
+// the model does not come from Sign.Bytes(), the function the wire encoding itself uses.
+var signSource = map[*common.Sign][]byte{}
+
 func tokTx(t *types.Transaction) string {
 	sign := "n"
 	if t.Sign != nil {
-		sign = hx.Hex(t.Sign.Bytes())
+		if src, ok := signSource[t.Sign]; ok {
+			sign = hx.Hex(src)
+		} else {
+			sign = hx.Hex(t.Sign.Bytes())
+		}
 	}
 	return strings.Join([]string{
 		tokBytes([]byte(t.Source)), tokBytes([]byte(t.Target)), strconv.FormatUint(uint64(uint32(t.Type)), 10),
@@ -175,6 +183,8 @@ func (g *gen) u64() uint64 {
 		return ^uint64(0)
 	case 7:
 		return uint64(g.r.Intn(100000))
+	case 8:
+		return uint64(g.r.Pick(1<<7-1, 1<<7, 1<<14-1, 1<<14, 1<<21, 1<<28, 1<<31, 1<<32, 1<<35, 1<<56, 1<<61-1, 1<<61, 1<<62, 1<<63-1)) + uint64(g.r.Intn(2))
 	default:
 		return g.r.U64() >> uint(g.r.Intn(64))
 	}
@@ -214,6 +224,9 @@ func (g *gen) hash() common.Hash {
 }
 
 func (g *gen) optBytes() []byte {
+	if g.r.Chance(1, 12) { // exact size boundaries: hashes, 1-/2-/3-byte length varints
+		return g.r.Bytes(g.r.Pick(31, 33, 55, 56, 64, 65, 127, 128, 129, 255, 256, 16383, 16384))
+	}
 	switch g.r.Intn(7) {
 	case 0:
 		return nil
@@ -374,6 +387,9 @@ func (g *gen) header(prod bool) *types.BlockHeader {
 		h.ProveValue = new(big.Int).SetBytes(g.r.Bytes(32))
 	}
 	nt := g.r.Pick(0, 0, 1, 2, 5)
+	if g.r.Chance(1, 40) {
+		nt = 260 // header longer than 16384 bytes: 3-byte length varint when nested in a block
+	}
 	if nt > 0 || prod || g.r.Bool() {
 		h.Transactions = make([]common.Hashes, 0)
 		for i := 0; i < nt; i++ {
@@ -404,6 +420,9 @@ func (g *gen) tx(prod bool) *types.Transaction {
 			b[0], b[1], b[32] = 0, 0, 0 // leading zero bytes in r and s
 		}
 		t.Sign = common.BytesToSign(b)
+		if len(signSource) < 200000 {
+			signSource[t.Sign] = b
+		}
 	}
 	switch g.r.Intn(6) {
 	case 0:
@@ -1129,6 +1148,79 @@ func (s *searcher) retention(g *gen, rounds int) {
 	}
 }
 
+// history: the same calls in another order, and again after unrelated (also failing) work, give the same answers.
+func (s *searcher) history(g *gen) {
+	type item struct {
+		kind string
+		mk   func() []byte
+	}
+	var items []item
+	for _, k := range keptKinds {
+		switch k {
+		case "t":
+			o := g.tx(true)
+			items = append(items, item{k, func() []byte { b, _ := types.MarshalTransaction(o); return b }})
+		case "s":
+			o := g.txs(true)
+			items = append(items, item{k, func() []byte { b, _ := types.MarshalTransactions(o); return b }})
+		case "h":
+			o := g.header(true)
+			items = append(items, item{k, func() []byte { b, _ := types.MarshalBlockHeader(o); return b }})
+		case "b":
+			o := &types.Block{Header: g.header(true), Transactions: g.txs(true)}
+			items = append(items, item{k, func() []byte { b, _ := types.MarshalBlock(o); return b }})
+		case "g":
+			o := g.group(true)
+			items = append(items, item{k, func() []byte { b, _ := types.MarshalGroup(o); return b }})
+		case "m":
+			o := &types.Member{Id: g.r.Bytes(7), PubKey: g.r.Bytes(9)}
+			items = append(items, item{k, func() []byte { b, _ := types.MarshalMember(o); return b }})
+		}
+	}
+	first := make([]string, len(items))
+	ftok := make([]string, len(items))
+	for i, it := range items {
+		b := it.mk()
+		first[i] = hx.Hex(b)
+		if f := parseKeep(it.kind, append([]byte{}, b...)); f != nil {
+			ftok[i] = f()
+		}
+	}
+	check := func(phase string) {
+		for _, i := range g.perm(len(items)) {
+			s.evals++
+			it := items[i]
+			res := hx.Guard(func() string {
+				b := it.mk()
+				if hx.Hex(b) != first[i] {
+					return "bytes " + short(first[i]) + " -> " + short(hx.Hex(b))
+				}
+				tok := ""
+				if f := parseKeep(it.kind, append([]byte{}, b...)); f != nil {
+					tok = f()
+				}
+				if tok != ftok[i] {
+					return "parse " + short(ftok[i]) + " -> " + short(tok)
+				}
+				return "same"
+			})
+			if res != "same" {
+				s.add("history-"+marshalName[it.kind]+"-"+strings.SplitN(res, " ", 2)[0], marshalName[it.kind]+" of the same object answers differently "+phase+": "+res,
+					map[string]string{"call": marshalName[it.kind] + "(x) repeated " + phase, "first": first[i], "observed": res})
+			}
+		}
+	}
+	check("in another order")
+	// execute-and-discard unrelated work, including rejected inputs, then ask again
+	for i := 0; i < 60; i++ {
+		for _, k := range []string{"hu", "tu", "su", "bu", "gu", "mu", "Gu"} {
+			hx.Guard(func() string { return parseOp(k, g.r.Bytes(g.r.Intn(40))) })
+		}
+		g.marshalKind(keptKinds[i%len(keptKinds)])
+	}
+	check("after unrelated and rejected calls in the same process")
+}
+
 // concurrent: N goroutines marshal and parse their own objects; every result must equal the one
 // obtained sequentially. Evidence about goroutine safety, not proof (schedules are not enumerated).
 func (s *searcher) concurrent(g *gen, workers, iters int) {
@@ -1257,6 +1349,20 @@ func corr(a map[string]string) {
 		scale = 10
 	}
 	nCorpus := runCorpus(out)
+	// process-local history: a few fixed questions are asked now and again after everything else
+	type sentinel struct {
+		kind string
+		b    []byte
+		ans  string
+	}
+	var sentinels []sentinel
+	sg := &gen{r: hx.NewRng(hx.SeedFromEnv() ^ 0x51e7)}
+	for _, k := range keptKinds {
+		if b := sg.marshalKind(k); b != nil {
+			b = append([]byte{}, b...)
+			sentinels = append(sentinels, sentinel{parseKindOf[k], b, doParse(out, parseKindOf[k], b)})
+		}
+	}
 
 	// small scope: every 1-byte string and a slice of the 2-byte strings, through every parser
 	for _, k := range []string{"tu", "hu", "su", "bu", "gu", "mu", "Gu"} {
@@ -1408,6 +1514,10 @@ func corr(a map[string]string) {
 		k := []string{"hu", "tu", "su", "bu", "gu", "mu", "Gu"}[g.r.Intn(7)]
 		doParse(out, k, g.r.Bytes(g.r.Intn(24)))
 	}
+	for i := range sentinels {
+		st := sentinels[i]
+		out.Do("ret "+hx.Hex([]byte(st.ans)), func() string { return hx.Hex([]byte(parseOp(st.kind, st.b))) })
+	}
 	fmt.Printf("STATS {\"corpus\":%d,\"dist\":%s}\n", nCorpus, out.StatsJSON())
 }
 
@@ -1420,6 +1530,7 @@ type viol struct {
 }
 
 type searcher struct {
+	live  *os.File // every violation is appended here as one JSON line the moment it is found
 	seen  map[string]bool
 	out   []viol
 	evals int
@@ -1432,6 +1543,11 @@ func (s *searcher) add(key, desc string, replay map[string]string) {
 	}
 	s.seen[key] = true
 	s.out = append(s.out, viol{key, desc, replay})
+	if s.live != nil {
+		js, _ := json.Marshal(viol{key, desc, replay})
+		s.live.Write(append(js, '\n'))
+		s.live.Sync()
+	}
 }
 
 func panicClass(msg string) string {
@@ -1501,6 +1617,19 @@ func badZone(t time.Time) string {
 		return "range"
 	}
 	return ""
+}
+
+// stdTimePass: what time.MarshalBinary;UnmarshalBinary alone make of t (independent of go-rangers).
+func stdTimePass(t time.Time) (string, bool) {
+	b, err := t.MarshalBinary()
+	if err != nil {
+		return "", false
+	}
+	var u time.Time
+	if err := u.UnmarshalBinary(b); err != nil {
+		return "", false
+	}
+	return tokTime(u), true
 }
 
 // parse oracle: object or error, never a panic, never (nil, nil), never an object that cannot be used.
@@ -1772,6 +1901,9 @@ func (s *searcher) run(g *gen, n int) {
 func search(a map[string]string) {
 	g := &gen{r: hx.NewRng(hx.SeedFromEnv() ^ 0x5ea7c4)}
 	s := &searcher{seen: map[string]bool{}, dist: map[string]bool{}}
+	if a["out"] != "" {
+		s.live, _ = os.Create(a["out"] + ".live")
+	}
 	// replay hints first (bytes of ops the correspondence stage disagreed on)
 	if hp := a["hints"]; hp != "" {
 		if fh, err := os.Open(hp); err == nil {
@@ -1807,7 +1939,9 @@ func search(a map[string]string) {
 		}
 	}
 	s.retention(g, 8)
+	s.history(g)
 	s.run(g, hx.ArgInt(a, "n", 300))
+	s.history(g)
 	s.retention(g, 8)
 	s.concurrent(g, 8, 40)
 	f, err := os.Create(a["out"])
